@@ -16,7 +16,7 @@ import impl
 import reports
 
 PROP_FILES = ["theories/Props/C09.v", "theories/Inst/C09_inst.v"]
-DEPS = ["theories/Proofs/JsonFacts.vo", "theories/Proofs/EscapeFacts.vo", "theories/Proofs/CsvFacts.vo",
+DEPS = ["theories/Gen/FormatFacts.vo", "theories/Proofs/JsonFacts.vo", "theories/Proofs/EscapeFacts.vo", "theories/Proofs/CsvFacts.vo",
         "theories/Proofs/GroupingFacts.vo", "theories/Gen/Registry.vo", "theories/Gen/IssueFields.vo"]
 
 ALPHABET = ["<", ">", "&", '"', "'", ",", ";", "\t", "\\", "/", "a", "Z", " ", "é", "ß", "‮", " ", "\x85", "€", "😀", "\U0001f600",
@@ -92,6 +92,9 @@ def system(R, rng, tier):
             fn = "%s_%d.py" % (stem, k)
             pw = gen_text(rng, "oneline")
             src = ("import subprocess\npassword = %s\nsubprocess.Popen(cmd,\n    stdin=None,\n    shell=True)\nassert password\n" % py_literal(pw))
+            if rng.random() < 0.6:
+                # several rules share the test name "blacklist" while a plugin's ID lies between theirs
+                src += "import pickle, hashlib\npickle.loads(zz)\nhashlib.md5(zz)\nimport telnetlib\n"
             if rng.random() < 0.3:
                 src += "try:\n    pass\nexcept Exception:\n    pass\n"
             open(os.path.join(sub, fn), "w", encoding="utf-8").write(src)
